@@ -52,6 +52,10 @@ pub struct WorkerCfg {
     pub cases: u32,
     /// signatures of known findings for this property (excluded from the search)
     pub known: Vec<String>,
+    /// write every case here before executing it (out-of-process failure attribution)
+    pub current: Option<String>,
+    /// generate with the profile of another property (diagnostics)
+    pub profile: Option<Prop>,
 }
 
 pub fn stats_json(st: &Stats) -> Value {
@@ -77,8 +81,9 @@ pub fn stats_json(st: &Stats) -> Value {
 }
 
 pub fn worker(cfg: &WorkerCfg) -> Value {
-    let profile = gen::profile(cfg.prop, cfg.thorough);
-    let strat = if cfg.prop == C14 { gen::c14_case_strategy(cfg.thorough) } else { gen::case_strategy(&profile) };
+    let gp = cfg.profile.unwrap_or(cfg.prop);
+    let profile = gen::profile(gp, cfg.thorough);
+    let strat = if gp == C14 { gen::c14_case_strategy(cfg.thorough) } else { gen::case_strategy(&profile) };
     let mut seed_bytes = [0u8; 32];
     let s = splitmix(cfg.seed ^ 0xA5A5_0000 ^ ((cfg.prop as u64) << 40));
     for i in 0..4 {
@@ -121,7 +126,11 @@ pub fn worker(cfg: &WorkerCfg) -> Value {
     let prop = cfg.prop;
     let big = cfg.thorough;
     let known = cfg.known.clone();
+    let current = cfg.current.clone();
     let result = runner.run(&strat, |case| {
+        if let Some(p) = &current {
+            let _ = std::fs::write(p, serde_json::to_string(&case).unwrap_or_default());
+        }
         let out = run_case(&case, big);
         let mut a = acc.borrow_mut();
         if !a.failing {
